@@ -109,7 +109,7 @@ structure NRef where
   /-- handshake completions in order: (node, peer, completed as initiator) -/
   done : List (String × String × Bool) := []
   /-- datagrams sealed by a key holder with a raw plaintext (`nseal`): outside the scope of the outsider properties -/
-  keyholder : List Bytes := []
+  keyholder : List (Bytes × Bytes × Int) := []      -- (wire datagram, plaintext, time of sealing)
   marks : List (String × Nat) := []
 
 /-- the sessions `a` and `b` hold for each other stem from the same handshake attempt: the last two completions between
@@ -149,24 +149,27 @@ def stateChecks (n : NodeS) (now : Int) : Option String :=
   else if n.rc.any (fun (_, _, _, nx) => nx > now + 3600) then some "C15 next reconnect attempt is more than one hour away"
   else none
 
-/-- which peers a frame read from the interface is meant for, by the node's own table (as dumped) and mode -/
-def selectedPeers (r : NRef) (port : Nat) (n : NodeS) (frame : Bytes) : Option (List String) :=
+/-- which peers a frame read from the interface is meant for, by the node's own table (as dumped) and mode;
+    result: (unicast?, peers).  unicast = a cached decision or a claim matched: exactly one of the listed (tied) peers is the next hop;
+    otherwise the listed peers (all, or none) get one copy each -/
+def selectedPeers (r : NRef) (port : Nat) (n : NodeS) (frame : Bytes) : Option (Bool × List String) :=
   let tap := r.cfgOf port "dev" = "tap"
   let mode := r.cfgOf port "mode"
   let (_, broadcast) := modeFlags mode tap
   let parsed := if tap then VpnCloud.Spec.C19.frameRef frame else VpnCloud.Spec.C19.packetRef frame
   match parsed with
-  | none => some []
+  | none => some (false, [])
   | some (_, dst) =>
     match n.cache.find? (fun (a, _, _) => a = dst) with
-    | some (_, p, _) => some [p]
+    | some (_, p, _) => some (true, [p])
     | none =>
       let ms := n.claims.filter (fun (_, rg, _) => VpnCloud.Spec.C11.matchesRef rg.base rg.prefixLen dst)
-      if ms.isEmpty then some (if broadcast then n.peers.map (·.addr) else [])
+      if ms.isEmpty then some (false, if broadcast then n.peers.map (·.addr) else [])
       else
         let best := ms.foldl (fun m (_, rg, _) => max m rg.prefixLen) 0
         -- any peer with a longest matching claim is acceptable
-        none.orElse (fun _ => some ((ms.filter (fun (_, rg, _) => rg.prefixLen = best)).map (fun (p, _, _) => p)))
+        -- (a peer that announced a range twice holds it twice in the table: one selection)
+        none.orElse (fun _ => some (true, ((ms.filter (fun (_, rg, _) => rg.prefixLen = best)).map (fun (p, _, _) => p)).eraseDups))
 
 def outsOfObs (ires : String) : List (String × String × Bytes) :=
   (parseOuts ires).map (fun (a, b, h) => (addrStr a, addrStr b, h))
@@ -177,12 +180,78 @@ def devsOfObs (ires : String) : List Bytes :=
 
 def tickOf (r : NRef) (p : Nat) : Nat := ((r.ticks.find? (·.1 = p)).map (·.2)).getD 0
 
+def sameRanges (a b : List Range) : Bool := a.all (fun x => b.contains x) && b.all (fun x => a.contains x)
+
+/-- a message sealed by an honest key holder (`nseal`: close, keepalive, node information with arbitrary content, unknown types) arrives.
+    The outsider rules do not apply; what the properties say about messages of an established peer does:
+    close => the peer is gone with everything that pointed to it (C12); node information => the claims attributed to the peer are exactly the
+    announced ones, all fresh (C12), addresses listed under the receiver's own identity are adopted and not dialled (C14); node information and
+    keepalive refresh the peer's expiry (C15).  Applied to the first regular delivery within a second of sealing, when both ends hold
+    sessions from the same handshake attempt (otherwise the message may legitimately fail to open). -/
+def keyholderChecks (r : NRef) (port : Nat) (src : String) (d : Bytes) (attack : Bool) (ires istate : String) : NRef × String :=
+  if ires = "lost" || ires = "filtered" || istate = "" then (r, "-") else
+  match r.node port, r.keyholder.find? (·.1 = d) with
+  | some before, some (_, plain, born) =>
+    let after := parseNodeS istate
+    let outs := outsOfObs ires
+    let devs := devsOfObs ires
+    let me := s!"p{port}"
+    let r1 := r.setNode port after
+    let r1 := { r1 with wire := r1.wire ++ outs, queue := r1.queue ++ outs }
+    let ownPt : Int := ((r.cfgOf port "pt").toNat?.getD 0 : Nat)
+    let applies := !attack && before.peers.any (fun p => p.addr = src && p.ready) && r.paired src me && r.now ≤ born + 1
+    let verdict : Option String :=
+      match stateChecks after r.now with
+      | some e => some e
+      | none =>
+      if outs.any (fun (_, dst, b) => b.head? ≠ some 255 && dst ≠ src && !b.isEmpty) then some "C10 a received datagram caused a non-handshake datagram to a third party (relaying)"
+      else if !applies then none
+      else match plain with
+        | 255 :: _ =>
+          if after.peers.any (fun p => p.addr = src) then some "C12 a peer that sent a close message is still a peer"
+          else if after.claims.any (fun (p, _, _) => p = src) || after.cache.any (fun (_, p, _) => p = src) then some "C12 routes of a peer that sent a close message survive"
+          else none
+        | 2 :: _ =>
+          if after.peers.any (fun p => p.addr = src && p.timeout ≠ r.now + ownPt) then some "C15 a keepalive did not refresh the peer's expiry to now + the configured peer timeout" else none
+        | 1 :: body =>
+          match decodeNodeInfo body with
+          | none => none
+          | some info =>
+            let mine := (after.claims.filter (fun (p, _, _) => p = src))
+            if !devs.isEmpty then some "C10 node information reached the interface"
+            else if !sameRanges (mine.map (fun (_, rg, _) => rg)) info.claims then
+              some s!"C12 claims attributed to {src} are not exactly those of its latest announcement"
+            else if mine.any (fun (_, _, to) => to ≠ r.now + ownPt) then some "C12/C15 an announced route does not expire at now + the configured peer timeout"
+            else if after.peers.any (fun p => p.addr = src && p.timeout ≠ r.now + ownPt) then some "C15 node information did not refresh the peer's expiry to now + the configured peer timeout"
+            else
+              -- C14: entries listed under the receiver's own identity (none of whose addresses is a peer address): adopted, not dialled
+              let ownEntries := info.peers.filter (fun e => (e.nodeId.map Bytes.toHex) = some before.id &&
+                !(e.addrs.any (fun a => before.peers.any (fun p => p.addr = addrStr (VpnCloud.mappedAddr a)))))
+              let addrs := ownEntries.flatMap (fun e => e.addrs.map (fun a => addrStr (VpnCloud.mappedAddr a)))
+              -- the list of own addresses keeps the addresses as listed (an IPv4 address is not brought into its IPv6-mapped form)
+              let listedAs := ownEntries.flatMap (fun e => e.addrs.map addrStr)
+              if listedAs.any (fun a => !after.own.contains a) then some "C14 an address listed under the node's own identity was not adopted as own address"
+              else if addrs.any (fun a => after.pending.contains a && !before.pending.contains a) then some "C14 the node dials an address listed under its own identity"
+              else
+                -- C14: a node that is already a peer (known node id) is not dialled under another address
+                let known := info.peers.filter (fun e => match e.nodeId with
+                  | some id => before.peers.any (fun p => p.nodeId = Bytes.toHex id)
+                  | none => false)
+                let kaddrs := known.flatMap (fun e => e.addrs.map (fun a => addrStr (VpnCloud.mappedAddr a)))
+                -- addresses that some other entry (unknown node, or no node id) lists as well may be dialled because of that entry
+                let other := (info.peers.filter (fun e => !known.contains e && !ownEntries.contains e)).flatMap (fun e => e.addrs.map (fun a => addrStr (VpnCloud.mappedAddr a)))
+                if kaddrs.any (fun a => after.pending.contains a && !before.pending.contains a && !other.contains a) then some "C14 the node dials a node it is already connected to"
+                else none
+        | _ => none
+    (r1, match verdict with | some e => "FAIL " ++ e | none => "ok")
+  | _, _ => (r, "-")
+
 /-- processing of a received datagram `d` from `src` at node `port`; `tracked`: the datagram is a genuine data datagram -/
 def receiveChecks (r : NRef) (port : Nat) (src : String) (d : Bytes) (attack : Bool) (ires istate : String) : NRef × String :=
-  if (ires = "panic" || istate = "" && ires.startsWith "panic") && r.keyholder.contains d then
+  if (ires = "panic" || istate = "" && ires.startsWith "panic") && r.keyholder.any (·.1 = d) then
     -- C08 is about senders that hold no trusted key; what a key holder can do with a raw seal is recorded as an observation (DESIGN.md)
     (r, "-") else
-  if r.keyholder.contains d then (r, "-") else
+  if r.keyholder.any (·.1 = d) then keyholderChecks r port src d attack ires istate else
   if ires = "panic" || istate = "" && ires.startsWith "panic" then (r, "FAIL C08 the node panicked on a datagram") else
   if ires = "lost" || ires = "filtered" then (r, "-") else
   match r.node port with
@@ -192,8 +261,9 @@ def receiveChecks (r : NRef) (port : Nat) (src : String) (d : Bytes) (attack : B
     let outs := outsOfObs ires
     let devs := devsOfObs ires
     let genuine := isGenuine r d
-    let tr := r.tracked.find? (fun t => t.bytes = d)
     let me := s!"p{port}"
+    -- (over plain sessions the copies of a flooded frame are byte-identical datagrams to different peers: prefer the one sent to this node)
+    let tr := (r.tracked.find? (fun t => t.bytes = d && t.dst = me && t.src = src)).orElse (fun _ => r.tracked.find? (fun t => t.bytes = d))
     let r1 := (r.setNode port after)
     let r1 := { r1 with wire := r1.wire ++ outs, queue := r1.queue ++ outs }
     let verdict : Option String :=
@@ -259,9 +329,23 @@ def receiveChecks (r : NRef) (port : Nat) (src : String) (d : Bytes) (attack : B
         if !after.pending.contains src && after.peers.any (fun p => p.addr = src) && (stage = 2 || stage = 3) then [(me, src, stage = 2)] else []
       | none => []
     let r2 := { r1 with done := r1.done ++ completed,
-                        tracked := r1.tracked.map (fun t => if t.bytes = d && !devs.isEmpty then
+                        tracked := r1.tracked.map (fun t => if t.bytes = d && !devs.isEmpty && (t.dst = me || !(r1.tracked.any (fun u => u.bytes = d && u.dst = me))) then
                           { t with delivered := true, deliveredTick := match t.deliveredTick with | some k => some k | none => some (tickOf r port) } else t) }
     (r2, match verdict with | some e => "FAIL " ++ e | none => "ok")
+
+/-- `<idN>` inside a hex text stands for the node id of node N -/
+def substIdsRef (r : NRef) (hex : String) : String :=
+  match hex.splitOn "<id" with
+  | [] => hex
+  | first :: rest =>
+    rest.foldl (fun acc piece =>
+      match piece.splitOn ">" with
+      | num :: tl =>
+        let id := match num.toNat?.bind r.node with
+          | some n => n.id
+          | none => String.ofList (List.replicate 32 '0')
+        acc ++ id ++ ">".intercalate tl
+      | [] => acc) first
 
 def nodeRefStep (r : NRef) (t : List String) (obs : String) : NRef × String :=
   if obs = "none-in-flight" || obs = "none-on-wire" || obs = "dropped" then
@@ -271,11 +355,12 @@ def nodeRefStep (r : NRef) (t : List String) (obs : String) : NRef × String :=
   else
   let (ires, istate) := splitObs obs
   match (if t.head? = some "nreplay-last" then "nreplay" :: s!"w{r.wire.length - 1}" :: t.drop 1 else t) with
-  | ["nseal", i, _, _] =>
+  | ["nseal", i, _, hex] =>
     let p := i.toNat?.getD 0
     let outs := outsOfObs ires
     let r1 := if istate = "" then r else r.setNode p (parseNodeS istate)
-    ({ r1 with wire := r1.wire ++ outs, queue := r1.queue ++ outs, keyholder := r1.keyholder ++ outs.map (fun (_, _, b) => b) }, "-")
+    let plain := (if hex = "-" then some [] else Bytes.ofHex (substIdsRef r hex)).getD []
+    ({ r1 with wire := r1.wire ++ outs, queue := r1.queue ++ outs, keyholder := r1.keyholder ++ outs.map (fun (_, _, b) => (b, plain, r.now)) }, "-")
   | ["nmark", name] => (if r.wire.isEmpty then r else { r with marks := (name, r.wire.length - 1) :: r.marks }, "-")
   | ["ndropfrom", i] => ({ r with queue := r.queue.filter (fun (s, _, _) => s ≠ s!"p{i}") }, "-")
   | ["ndropfrom", i, j] => ({ r with queue := r.queue.filter (fun (s, d, _) => !(s = s!"p{i}" && d = s!"p{j}")) }, "-")
@@ -323,10 +408,10 @@ def nodeRefStep (r : NRef) (t : List String) (obs : String) : NRef × String :=
           else if !dsts.eraseDups.length = dsts.length then some "C10 more than one copy of a frame for the same peer"
           else if dsts.any (fun d => !(before.peers.any (fun q => q.addr = d))) then some "C12 frame sent to an address that is not a peer"
           else match selectedPeers r p before frame with
-            | some sel =>
+            | some (unicast, sel) =>
               -- sessions that are not ready cannot be sent to: the copy for them is missing legitimately
               let selReady := sel.filter (fun a => before.peers.any (fun q => q.addr = a && q.ready))
-              if sel.length ≤ 1 || (r.cfgOf p "mode" = "router" || (r.cfgOf p "mode" = "normal" && r.cfgOf p "dev" = "tun")) && !(sel.length = before.peers.length) then
+              if unicast then
                 -- unicast: exactly the next hop (any of the tied longest-prefix peers)
                 if dsts.isEmpty && selReady.isEmpty then none
                 else if dsts.length = 1 && sel.contains (dsts.headD "") then none
